@@ -1,6 +1,8 @@
 package main
 
 import (
+	"math/big"
+
 	"verifharness/vt"
 
 	"github.com/oasisprotocol/curve25519-voi/curve/scalar"
@@ -44,6 +46,44 @@ func recC17(c *ctx) {
 				}
 			}
 			emit(b)
+		}
+	}
+	// carry chains for every digit width: a digit that generates a carry (2^(w-1) or 2^w-1) at position i, followed
+	// by digits 2^(w-1)-1 (which propagate it) up to position j; j runs over the next two digits, every 32-bit word
+	// seam above i and the top of the scalar - a recoder that recentres several digits at a time (word-wise add of
+	// 0x0888.. / 0x8080..) must carry across its words exactly like the digit-serial definition
+	chainStep := 1
+	if c.tier != "thorough" {
+		chainStep = 5
+	}
+	cnt := int(c.r.Int63() % int64(chainStep))
+	for w := 4; w <= 8; w++ {
+		nd := (255 + w - 1) / w
+		for i := 0; i < nd; i++ {
+			ends := map[int]bool{i + 1: true, i + 2: true, nd - 1: true}
+			for m := 1; m <= 8; m++ {
+				if j := (32*m - 1) / w; j > i {
+					ends[j] = true
+					ends[j-1] = true
+				}
+			}
+			for j := i + 1; j < nd; j++ {
+				if !ends[j] {
+					continue
+				}
+				for _, gen := range []uint{1 << uint(w-1), 1<<uint(w) - 1} {
+					cnt++
+					if cnt%chainStep != 0 {
+						continue
+					}
+					v := new(big.Int).Lsh(big.NewInt(int64(gen)), uint(w*i))
+					for t := i + 1; t <= j; t++ {
+						v.Or(v, new(big.Int).Lsh(big.NewInt(int64(1<<uint(w-1)-1)), uint(w*t)))
+					}
+					v.And(v, new(big.Int).Sub(new(big.Int).Lsh(big.NewInt(1), 255), big.NewInt(1)))
+					emit(vt.LE(v, 32))
+				}
+			}
 		}
 	}
 	n := c.budget(150, 6000)
